@@ -82,6 +82,11 @@ def render(ids, crlf=False, style=None):
                        (b'binary' if st & 8 else b'text') + extra + nl +
                        b'x\n')
             continue
+        elif name == 'preamble' and st & 8 and st & 64:
+            # an indented preamble that consists of one empty line
+            out.append(b'#' + sid.encode() + b': indent=4, length=1' +
+                       extra + nl + b'\n')
+            continue
         elif name in ('preamble', 'diff') and st & 8:
             out.append(b'#' + sid.encode() +
                        b': length=2, line_endings=unix' + extra + nl +
